@@ -46,7 +46,7 @@ Definition parent_dirs (p : text) : list text := removelast (path_prefixes [] p)
 Definition world_of (files : list (text * text)) : world :=
   let dirs := flat_map (fun f => parent_dirs (fst f)) files in
   let fs0 := fold_left (fun acc d => alist_set d FsDir acc) dirs [] in
-  mkWorld (fold_left (fun acc f => alist_set (fst f) (FsFile (snd f)) acc) files fs0) [].
+  mkWorld (fold_left (fun acc f => alist_set (fst f) (FsFile (snd f)) acc) files fs0) [] default_cwd.
 
 Definition parse_sched (s : text) : option (list bool) :=
   match s with
